@@ -981,6 +981,98 @@ def gen_autoname_case(rng):
 
 
 # ------------------------------------------------------------------------------------------------
+# setup()-defined children shared between a transformed method and the untransformed rest of the module
+# ------------------------------------------------------------------------------------------------
+
+
+def check_setupchild_case(ctx, case):
+  """A child bound OUTSIDE the transformed code (defined in setup) draws keys before, inside and after a jitted /
+  rematted method of its parent; the module also draws from its own scope after the call.  The same apply is repeated
+  (second and third run = jit cache hits).  Oracle: every repeat equals the first run; every draw made outside the
+  transformed method equals the untransformed rendering's; under remat all draws do."""
+  t = case['transform']
+  streams = case['streams']
+
+  class Draw(nn.Module):
+    stream: str
+
+    def __call__(self):
+      return jax.random.key_data(self.make_rng(self.stream))
+
+  lp.KEEP_ALIVE.append(Draw)
+
+  def build(lifted):
+    deco = {'jit': nn.jit, 'remat': nn.remat}[t] if lifted else (lambda f: f)
+
+    def setup(self):
+      self.d = Draw(streams[0])
+      if case['two_children']:
+        self.e = Draw(streams[-1])
+
+    def middle(self, x):
+      out = [self.d() for _ in range(case['inside'])]
+      if case['two_children']:
+        out.append(self.e())
+      if case['own_inside']:
+        out.append(jax.random.key_data(self.make_rng(streams[0])))
+      return tuple(out), x + 1
+
+    def call(self, x):
+      a = tuple(self.d() for _ in range(case['pre']))
+      b = tuple(self.middle(x)[0] for _ in range(case['calls_inside']))
+      c = tuple(self.d() for _ in range(case['post']))
+      if case['two_children']:
+        c = c + (self.e(),)
+      own = jax.random.key_data(self.make_rng(streams[0]))
+      return a, b, c, own
+
+    M = type('SetupM', (nn.Module,), {'setup': setup, 'middle': deco(middle), '__call__': call})
+    lp.KEEP_ALIVE.append(M)
+    return M
+
+  rngs = {s: jax.random.key(SEEDS[s]) for s in set(streams)}
+  canon = lambda out: [[np.asarray(k).tolist() for k in jax.tree.leaves(part)] for part in out]
+  runs = {}
+  for which in ('plain', 'lifted'):
+    M = build(which == 'lifted')
+    runs[which] = [lp.call(lambda: canon(M().apply({}, I(1), rngs=rngs))) for _ in range(case['repeats'])]
+  ctx.case(case)
+  ctx.count('transform', f'setupchild-{t}')
+  pl, li = runs['plain'], runs['lifted']
+  where = json.dumps(case)
+  if any(r[0] != 'ok' for r in pl + li):
+    if [r[0] for r in pl] != [r[0] for r in li] or any(a != b for a, b in zip(pl, li) if a[0] == 'err'):
+      ctx.violation(f'setupchild-{t}-outcome', f'nn.{t} with a setup-defined child: {[r if r[0] == "err" else "ok" for r in li]} vs plain {[r if r[0] == "err" else "ok" for r in pl]} on {where}', case)
+    return
+  for i in range(1, len(li)):
+    if li[i][1] != li[0][1]:
+      parts = [n for n, u, v in zip(('before', 'inside', 'after', 'own-after'), li[0][1], li[i][1]) if u != v]
+      ctx.violation(f'setupchild-{t}-repeat-differs', f'nn.{t}: apply number {i + 1} (cache hit) drew different keys than the first apply in parts {parts} on {where}', case)
+      return
+  names = ('before', 'inside', 'after', 'own-after')
+  # under jit the module's own stream is forked at every jitted call (its counter advances by design): own draws are
+  # compared by repetition only
+  cmp_idx = (0, 1, 2, 3) if t == 'remat' else (0, 2)
+  for i in cmp_idx:
+    if li[0][1][i] != pl[0][1][i]:
+      ctx.violation(f'setupchild-{t}-keys-differ', f'nn.{t}: keys drawn {names[i]} the transformed method {li[0][1][i]} differ from the untransformed module {pl[0][1][i]} on {where}', case)
+      return
+  flat = [tuple(k) for part in li[0][1] for k in part]
+  if len(set(flat)) != len(flat):
+    ctx.violation(f'setupchild-{t}-key-reused', f'nn.{t}: a key was drawn twice within one apply: {li[0][1]} on {where}', case)
+
+
+def gen_setupchild_case(rng):
+  two = rng.random() < 0.4
+  return {
+    'kind': 'setupchild', 'transform': rng.choice(['jit', 'jit', 'jit', 'remat']),
+    'streams': ['dropout', 'noise'] if two and rng.random() < 0.6 else ['dropout'],
+    'two_children': two, 'pre': rng.randrange(0, 3), 'inside': rng.randrange(1, 4), 'post': rng.randrange(1, 3),
+    'calls_inside': rng.randrange(1, 3), 'own_inside': rng.random() < 0.4, 'repeats': 3,
+  }
+
+
+# ------------------------------------------------------------------------------------------------
 # F11 probe (known finding; not a generated pattern)
 # ------------------------------------------------------------------------------------------------
 
@@ -1050,6 +1142,8 @@ def run_case(ctx, drv, case):
     check_ctrl_case(ctx, drv, case)
   elif k == 'autoname':
     check_autoname_case(ctx, case)
+  elif k == 'setupchild':
+    check_setupchild_case(ctx, case)
   else:
     ctx.notes.append(f'unknown corpus case kind {k}')
 
@@ -1062,7 +1156,7 @@ def run(ctx):
     ctx.corpus_replayed += 1
     run_case(ctx, drv, obj.get('case', obj))
   scale = 12 if thorough else 1
-  plan = [('remat', 50), ('mapvars', 46), ('jit', 34), ('history', 40), ('cond', 44), ('switch', 38), ('while', 38), ('autoname', 14)]
+  plan = [('setupchild', 14), ('autoname', 12), ('history', 34), ('jit', 30), ('remat', 44), ('mapvars', 40), ('cond', 38), ('switch', 32), ('while', 32)]
   cases = []
   for what, n in plan:
     for _ in range(n * scale):
@@ -1072,6 +1166,8 @@ def run(ctx):
         cases.append(gen_history_case(rng))
       elif what == 'autoname':
         cases.append(gen_autoname_case(rng))
+      elif what == 'setupchild':
+        cases.append(gen_setupchild_case(rng))
       else:
         cases.append(gen_ctrl_case(rng, what))
   for case in cases:
